@@ -35,6 +35,15 @@ CHECKS = {
         "Trusted: the reference xterm tables in mc/checks/c18.py; #rrggbb is a lattice (9^3 quick / 33^3 thorough + palette steps), not all 2^24 values.",
         "DESIGN.md §4 C18",
     ),
+    "C11": (
+        MC,
+        "bounded-exhaustive enumeration: every Unicode scalar value, and every short string over class-representative tokens with boundaries known by construction, x all boundary pairs, columns, trim ranges and encodings",
+        "All 1 112 064 scalar values are pushed through the str and UTF-8 byte paths; every string of <= 5/6 tokens over 8 str classes, 7 wide-mode "
+        "and 5 narrow-mode byte tokens is checked on every (start, end) boundary pair, every target column and every trim range against the "
+        "per-character (offset, width) list the string was built from; DEC line-drawing translation is checked per character in 4 target encodings.",
+        "Trusted: wcwidth package as the Unicode width table; token widths for wide/narrow byte modes (pair = 2 columns, byte = 1).",
+        "DESIGN.md §4 C11",
+    ),
 }
 
 PENDING_REASON = "check not built yet in this round (see DESIGN.md Appendix B build order); no claim is made"
